@@ -298,4 +298,138 @@ func checkC13(c *core.Ctx) {
 			c.Nontrivial("smf:" + k.String())
 		}
 	})
+
+	// the spellings without a scale stay refused whatever key is in force before them - in particular their
+	// valid enharmonic twin (G# after Ab, Fb after E, A#m after Bbm), by flag or by an earlier statement,
+	// on a chord and on a rest, in chord text and in instance documents
+	type twinCase struct{ bad, twin string }
+	var twins []twinCase
+	for _, ks := range spell {
+		k, err := theory.ParseKey(ks)
+		if err != nil || theory.IsSupported(ks) || (k.Signature() >= -7 && k.Signature() <= 7) {
+			continue
+		}
+		for _, o := range sup {
+			if o.Minor == k.Minor && (o.TonicOffset()-k.TonicOffset())%12 == 0 {
+				twins = append(twins, twinCase{ks, o.String()})
+			}
+		}
+	}
+	c.Stream("refuse-after-twin", len(twins)*6, func(i int, _ *rand.Rand) {
+		tc := twins[i%len(twins)]
+		tonic := strings.TrimSuffix(tc.twin, "m")
+		var res *runner.Result
+		var how string
+		switch i / len(twins) {
+		case 0:
+			how = "--key " + tc.twin + ": " + tonic + "[1] " + tonic + "[1]{key=" + tc.bad + "}"
+			res = run(c, []byte(tonic+"[1] "+tonic+"[1]{key="+tc.bad+"}"), "text", "conv", "syllable", "--key", tc.twin)
+		case 1:
+			how = "-k " + tc.twin + ": R[1]{key=" + tc.bad + "} " + tonic + "[1]"
+			res = run(c, []byte("R[1]{key="+tc.bad+"} "+tonic+"[1]"), "text", "conv", "syllable", "-k", tc.twin)
+		case 2:
+			how = tonic + "[1]{key=" + tc.twin + "} R[1] " + tonic + "[1]{key=" + tc.bad + "}"
+			res = run(c, []byte(how), "text", "conv", "syllable")
+		case 3:
+			how = "R[1]{key=" + tc.twin + "} R[1]{key=" + tc.bad + "} " + tonic + "[1]"
+			res = run(c, []byte(how), "text", "conv", "syllable")
+		case 4:
+			how = "write: key " + tc.twin + " then key " + tc.bad + " on a chord"
+			res = run(c, []byte("- chord: {degree: \"1\", name: \"\"}\n  values: [1]\n  key: "+jq(tc.twin)+"\n- chord: {degree: \"1\", name: \"\"}\n  values: [1]\n  key: "+jq(tc.bad)+"\n"), "write")
+		default:
+			how = "write --key " + tc.twin + ": key " + tc.bad + " on a later rest"
+			res = run(c, []byte("- chord: {degree: \"1\", name: \"\"}\n  values: [1]\n- values: [1]\n  key: "+jq(tc.bad)+"\n- chord: {degree: \"1\", name: \"\"}\n  values: [1]\n"), "write", "--key", tc.twin)
+		}
+		c.Eval(1)
+		if infra(c, res) {
+			return
+		}
+		if a := abnormal(res); a != "" {
+			c.Violate("refuse-after-twin", i, "refuse-after-twin:"+tc.bad+":abnormal", how+" "+a, obs(res))
+			return
+		}
+		if res.OK() {
+			c.Violate("refuse-after-twin", i, fmt.Sprintf("refuse-after-twin:%s:%d", tc.bad, i/len(twins)), fmt.Sprintf("key %s has no scale, but it is accepted right after its enharmonic twin %s (%s)", tc.bad, tc.twin, how), obs(res))
+			return
+		}
+		c.Nontrivial("refuse-after-twin:" + how)
+	})
+
+	// the signature along histories of key statements: every statement of a key (first instance or --key at tick 0,
+	// later ones at the start of their instance - on chords, on rests, restated, with no chord in between) produces
+	// the conventional signature of exactly that key, in order
+	c.Stream("smf-history", c.N(400, 8000), func(i int, r *rand.Rand) {
+		n := 2 + r.Intn(6)
+		var p model.Piece
+		pool := []theory.Key{sup[r.Intn(len(sup))], sup[r.Intn(len(sup))], sup[r.Intn(len(sup))]}
+		for j := 0; j < n; j++ {
+			in := model.Instance{Values: []model.Frac{{Num: 1, Den: 1}}}
+			if r.Intn(5) >= 2 {
+				in.Chord = &model.ChordSpec{Deg: theory.Interval{N: 1, Q: theory.Perfect}, Symbol: ""}
+			}
+			if r.Intn(2) == 0 {
+				in.Key = pool[r.Intn(len(pool))].String() // a small pool: restatements and returns are frequent
+			}
+			p.Inst = append(p.Inst, in)
+		}
+		var f model.Flags
+		if r.Intn(2) == 0 {
+			f.Key = pool[r.Intn(len(pool))].String()
+		}
+		// expected statements: (instance index, key)
+		type stmt struct {
+			inst int
+			key  string
+		}
+		var want []stmt
+		first := "C"
+		if p.Inst[0].Key != "" {
+			first = p.Inst[0].Key
+		}
+		if f.Key != "" {
+			first = f.Key
+		}
+		want = append(want, stmt{0, first})
+		for j := 1; j < n; j++ {
+			if p.Inst[j].Key != "" {
+				want = append(want, stmt{j, p.Inst[j].Key})
+			}
+		}
+		res, out := playPiece(c, p, f, writeOpts{})
+		if infra(c, res) {
+			return
+		}
+		det := withYAML(map[string]any{"flag_key": f.Key}, p)
+		if a := abnormal(res); a != "" || !res.OK() {
+			c.Violate("smf-history", i, "smf-history:failed", "crd write fails on a piece that only uses supported keys "+a, mergeMaps(det, map[string]any{"run": obs(res)}))
+			return
+		}
+		file, derr := decodeSMF(out)
+		if file == nil {
+			c.Violate("smf-history", i, "smf-history:decode", derr, det)
+			return
+		}
+		var got []string
+		for _, e := range mergedEvents(file) {
+			if e.Kind == smfdec.Meta && e.MetaType == smfdec.MetaKSig {
+				got = append(got, fmt.Sprintf("tick %d: sf=%d mi=%d", e.Tick, int(int8(e.Data[0])), int(e.Data[1])))
+			}
+		}
+		var exp []string
+		for _, w := range want {
+			k, _ := theory.ParseKey(w.key)
+			mi := 0
+			if k.Minor {
+				mi = 1
+			}
+			exp = append(exp, fmt.Sprintf("tick %d: sf=%d mi=%d", w.inst*int(file.Division), k.Signature(), mi))
+		}
+		if strings.Join(got, "; ") != strings.Join(exp, "; ") {
+			c.Violate("smf-history", i, "smf-history:signatures", fmt.Sprintf("key signature events [%s], the key statements of the piece call for [%s]", strings.Join(got, "; "), strings.Join(exp, "; ")), det)
+			return
+		}
+		if len(want) >= 3 {
+			c.Nontrivial(fmt.Sprintf("hist%d", i))
+		}
+	})
 }
